@@ -8,6 +8,15 @@ namespace vh
 {
 using namespace multitensor;
 extern std::string g_tmp_path;
+static bool is_data_row(const std::vector<std::string> &t)
+{
+    if (t.empty() || t[0][0] == '#')
+        return false;
+    // the first token is a number (strtod consumes it entirely; inf / nan / -nan count)
+    char *end = nullptr;
+    std::strtod(t[0].c_str(), &end);
+    return end != t[0].c_str() && *end == '\0';
+}
 // ------------------------------------------------------------------ WMEM: write_membership_file on given labels / matrix
 void do_wmem(Toks &tk, std::ostream &os)
 {
@@ -29,16 +38,21 @@ void do_wmem(Toks &tk, std::ostream &os)
     size_t n = 0;
     while (std::getline(in, line))
     {
-        if (n > 0)
+        // data rows only, numbered consecutively: comment lines (`# ...`), blank lines and block headers (`a= 3`) are presentation
+        std::vector<std::string> toks_;
         {
             std::istringstream is(line);
             std::string t;
-            os << id << " line " << n << " :";
             while (is >> t)
-                os << " " << t;
-            os << "\n";
+                toks_.push_back(t);
         }
+        if (!is_data_row(toks_))
+            continue;
         n++;
+        os << id << " line " << n << " :";
+        for (auto &t : toks_)
+            os << " " << t;
+        os << "\n";
     }
     std::remove(g_tmp_path.c_str());
 }
@@ -61,16 +75,21 @@ void do_wafv(Toks &tk, std::ostream &os)
     size_t n = 0;
     while (std::getline(in, line))
     {
-        if (n > 0)
+        // data rows only, numbered consecutively: comment lines (`# ...`), blank lines and block headers (`a= 3`) are presentation
+        std::vector<std::string> toks_;
         {
             std::istringstream is(line);
             std::string t;
-            os << id << " line " << n << " :";
             while (is >> t)
-                os << " " << t;
-            os << "\n";
+                toks_.push_back(t);
         }
+        if (!is_data_row(toks_))
+            continue;
         n++;
+        os << id << " line " << n << " :";
+        for (auto &t : toks_)
+            os << " " << t;
+        os << "\n";
     }
     std::remove(g_tmp_path.c_str());
 }
@@ -93,16 +112,21 @@ void do_waff(Toks &tk, std::ostream &os)
     size_t n = 0;
     while (std::getline(in, line))
     {
-        if (n > 0)
+        // data rows only, numbered consecutively: comment lines (`# ...`), blank lines and block headers (`a= 3`) are presentation
+        std::vector<std::string> toks_;
         {
             std::istringstream is(line);
             std::string t;
-            os << id << " line " << n << " :";
             while (is >> t)
-                os << " " << t;
-            os << "\n";
+                toks_.push_back(t);
         }
+        if (!is_data_row(toks_))
+            continue;
         n++;
+        os << id << " line " << n << " :";
+        for (auto &t : toks_)
+            os << " " << t;
+        os << "\n";
     }
     std::remove(g_tmp_path.c_str());
 }
